@@ -979,7 +979,7 @@ def none_default_discipline(ctx: Context, rule: str, qualnames: Iterable[str]) -
                         o_none = (f"{o} is None", True) in fs or (f"{o} is not None", False) in fs
                         ctx.check(rule, not o_none, f"the default of `{name}` is made from `{o}` only where `{o}` was given, never where it is None", fi, st,
                                   construct=f"{fi.short}: {name} = {norm_text(st.value)[:50]} under {'`' + o + ' is None`' if o_none else 'a path where `' + o + '` may have been given'}")
-                ctx.check(rule, is_none or sibling, f"the default of `{name}` (`{norm_text(st.value)[:50]}`) is substituted exactly where `{name}` is None: what the caller gave is kept", fi, st,
+                ctx.check(rule, is_none or (sibling and not not_none), f"the default of `{name}` (`{norm_text(st.value)[:50]}`) is substituted exactly where `{name}` is None: what the caller gave is kept", fi, st,
                           construct=f"{fi.short}: {name} = {norm_text(st.value)[:50]} under {'`' + name + ' is None`' if is_none else ('`' + name + ' is not None`' if not_none else 'no test of ' + name)}")
 
 
@@ -998,7 +998,7 @@ def refuses_only_when(ctx: Context, rule: str, qualname: str, marker: str, condi
         ctx.check(rule, ok, what, fi, r, construct=f"{fi.short}: `{marker}` raised under {sorted(t if pol else 'not (' + t + ')' for t, pol in fs)[:4]}")
 
 
-def keyword_overrides_kept(ctx: Context, rule: str, qualnames: Iterable[str], keys: Iterable[str]) -> None:
+def keyword_overrides_kept(ctx: Context, rule: str, qualnames: Iterable[str], keys: Iterable[str], required: Iterable[str] = ()) -> None:
     """Plot functions fill in defaults for keyword arguments the caller may have given (`array`, `clim`, `transform`): each `kwargs[k] = <default>`
     stands only where `k` is known not to be among the caller's keywords - an inverted test replaces what the caller asked for and leaves the
     default out where it is needed (patches drawn in the wrong coordinate system)."""
@@ -1010,16 +1010,22 @@ def keyword_overrides_kept(ctx: Context, rule: str, qualnames: Iterable[str], ke
             ctx.check(rule, False, f"{fi.short} takes extra keyword arguments", fi, fi.node)
             continue
         kw = fi.node.args.kwarg.arg
+        filled = set()
         for st in walk_no_nested(fi.node):
             if not (isinstance(st, ast.Assign) and isinstance(st.targets[0], ast.Subscript) and isinstance(st.targets[0].value, ast.Name) and st.targets[0].value.id == kw):
                 continue
             k = const_value(st.targets[0].slice, None)
+            filled.add(k)
             if k not in keys:
                 continue
             fs = facts(ctx, fi, st, expand=False)
             ok = (f"'{k}' in {kw}", False) in fs or (f"'{k}' not in {kw}", True) in fs or (f"{kw}.get('{k}') is None", True) in fs
             ctx.check(rule, ok, f"the default for `{k}` is filled in only where the caller gave no `{k}`", fi, st,
                       construct=f"{fi.short}: {kw}['{k}'] = {norm_text(st.value)[:40]} under {sorted(t if pol else 'not (' + t + ')' for t, pol in fs if kw in t) or 'no test of the keywords'}")
+        for k in required:
+            also = any(isinstance(c, ast.Call) and isinstance(c.func, ast.Attribute) and c.func.attr == 'setdefault' and isinstance(c.func.value, ast.Name) and c.func.value.id == kw
+                       and c.args and const_value(c.args[0], None) == k for c in ast.walk(fi.node))
+            ctx.check(rule, k in filled or also, f"a default for `{k}` is filled in where the caller gave none", fi, fi.node, construct=f"{fi.short}: default for `{k}` {'present' if (k in filled or also) else 'absent'}")
 
 
 CF_COORDINATE_MARKERS = {
@@ -1145,3 +1151,38 @@ def mesh_fill_value(ctx: Context, rule: str) -> None:
                 ok = k >= 0 and counts.startswith('max(') and 'self.node_count' in counts and 'self.face_count * self.max_node_count' in counts
                 why = f"nines: digits of {counts[:70]} {'+' if k >= 0 else '-'} {abs(k)}"
     ctx.check(rule, ok, "the mesh fill value is a row of nines with at least as many digits as the largest element count: no index can equal it", fi, rets[0] if rets else fi.node, construct=why)
+
+
+def ugrid_inventory(ctx: Context, rule: str) -> None:
+    """The geometry inventory of a mesh names, besides what its polygons are made of, every optional table that is supplied and valid and every
+    optional coordinate variable that exists - each under exactly its own test.  `select_variables`, `drop_geometry` and the cache key go by this
+    list: a table left out of it is dropped from a dataset that keeps "only some data variables", and its edits no longer change the key."""
+    from .common import facts
+    fi = ctx.func('emsarray.conventions.ugrid.UGrid.get_all_geometry_names')
+    flow = ctx.flow(fi)
+    appended = {}
+    for c in calls_in(fi):
+        if isinstance(c.func, ast.Attribute) and c.func.attr == 'append' and len(c.args) == 1:
+            from .common import expand_locals
+            text = norm_text(expand_locals(flow, c.args[0]))
+            appended[text] = (c, facts(ctx, fi, c, expand=True))
+    listed = set()
+    for n in ast.walk(fi.node):
+        if isinstance(n, ast.List):
+            listed |= {norm_text(flow.resolve(e)) for e in n.elts}
+    want_always = {'self.topology.mesh_variable.name', 'self.topology.face_node_connectivity.name', 'self.topology.node_x.name', 'self.topology.node_y.name'}
+    ctx.check(rule, want_always <= (listed | set(appended)), "the mesh variable, the face-node table and the node coordinates are always geometry", fi, fi.node,
+              construct=f"always listed: {sorted(listed)[:6]}")
+    for table in ('face_edge', 'face_face', 'edge_node', 'edge_face'):
+        text = f"self.topology.{table}_connectivity.name"
+        hit = appended.get(text)
+        guard = f"self.topology.has_valid_{table}_connectivity"
+        ok = hit is not None and {(t, pol) for t, pol in hit[1] if 'topology' in t} == {(guard, True)}
+        ctx.check(rule, ok, f"{table}: the supplied table is geometry exactly when it is valid", fi, hit[0] if hit else fi.node,
+                  construct=f"{table}: {'listed under ' + str(sorted(t if pol else 'not ' + t for t, pol in hit[1])) if hit else 'not listed'}")
+    for coord in ('edge_x', 'edge_y', 'face_x', 'face_y'):
+        text = f"self.topology.{coord}.name"
+        hit = appended.get(text)
+        ok = hit is not None and {(t, pol) for t, pol in hit[1] if 'topology' in t} in ({(f"self.topology.{coord} is None", False)}, {(f"self.topology.{coord} is not None", True)})
+        ctx.check(rule, ok, f"{coord}: the optional coordinate variable is geometry exactly when the mesh names one that exists", fi, hit[0] if hit else fi.node,
+                  construct=f"{coord}: {'listed under ' + str(sorted(t if pol else 'not ' + t for t, pol in hit[1])) if hit else 'not listed'}")
